@@ -143,7 +143,8 @@ class C18(object):
             'violation; distinct = hash of case; non-trivial = >= 1 code actually changed / >= 2 economies')
     assumptions = ['governments take no goods name: for a renamed goods market the spec wires DEM_GOOD = DEM_<new> on the '
                    'government, as the bundled REG model does', 'MON and DEP market codes keep their defaults']
-    required_counters = ('rename.compared', 'rename.compared.market_code_of_prefix_characters', 'embed.compared', 'embed.compared.capitalists_next_to_a_firm_that_retains_profits', 'embed_book.compared', 'builds.compared_exactly')
+    required_counters = ('rename.compared', 'rename.compared.market_code_of_prefix_characters', 'embed.compared', 'embed.compared.capitalists_next_to_a_firm_that_retains_profits',
+                         'embed.compared.federation_with_default_currency_regions_behind_unused_external_sector', 'embed_book.compared', 'builds.compared_exactly')
 
     def n_cases(self, tier):
         return 24 if tier == 'quick' else 600
@@ -156,6 +157,12 @@ class C18(object):
             return {'kind': 'rename', 'spec': spec, 'codes': codes, 'ckey_map': ckey_map}
         if m in (3, 4):
             spec = M.gen_spec(rng, n_zones=rng.choice([2, 2, 3]), ext=False, maxtime=rng.randint(3, 4), cross=False)
+            if m == 4:
+                # a federation (regions created without an explicit currency) embedded behind an unused external sector
+                for _ in range(60):
+                    if any(z['kind'] == 'federation' for z in spec['zones'][1:]):
+                        break
+                    spec = M.gen_spec(rng, n_zones=rng.choice([2, 2, 3]), ext=False, maxtime=rng.randint(3, 4), cross=False)
             if rng.random() < 0.7:
                 # every economy books an internal transfer of its own (their local variable names coincide)
                 for z in spec['zones']:
@@ -180,8 +187,10 @@ class C18(object):
                 spec['imports'] = [i for i in spec['imports'] if i['supplier'] not in [c['key'] for c in regs]]
                 for z in spec['zones']:
                     z['internal_imports'] = [i for i in z.get('internal_imports', []) if i['supplier'] not in [c['key'] for c in regs]]
-            return {'kind': 'embed', 'spec': spec, 'unused_ext': rng.random() < 0.5, 'cap_next_to_retained_profits': m == 3,
-                    'region_default_currency': rng.random() < 0.6}
+            fed_later = m == 4 and any(z['kind'] == 'federation' for z in spec['zones'][1:])
+            return {'kind': 'embed', 'spec': spec, 'unused_ext': fed_later or rng.random() < 0.5, 'cap_next_to_retained_profits': m == 3,
+                    'federation_behind_unused_ext': fed_later,
+                    'region_default_currency': fed_later or rng.random() < 0.6}
         names = ['SIM', 'SIMEX1', 'PC', 'PC']
         k = rng.choice([2, 2, 3])
         return {'kind': 'embed_book', 'builders': [rng.choice(names) for _ in range(k)],
@@ -265,6 +274,8 @@ class C18(object):
             rec.count('embed.compared')
             if case.get('cap_next_to_retained_profits'):
                 rec.count('embed.compared.capitalists_next_to_a_firm_that_retains_profits')
+            if case.get('federation_behind_unused_ext'):
+                rec.count('embed.compared.federation_with_default_currency_regions_behind_unused_external_sector')
         return {'verdict': 'violated' if rec.violations else 'held', 'nontrivial': len(alone) >= 2,
                 'evals': 1 + len(alone), 'shape': shape, 'counters': rec.counters, 'violations': rec.violations[:4],
                 'obs': {'economies': [z['cur'] for z in spec['zones']], 'joint_vars': len(joint_E.names)}}
